@@ -8,7 +8,7 @@ if os.path.exists(final): shutil.rmtree(final)
 shutil.move(pend, final)
 m = json.load(open(f'{final}/meta.json'))
 prop = m.get('property', final[:3])
-rnd = 'seed3' if pend.startswith('pending3') else 'seed2'
+rnd = ('seed' + pend[7]) if pend.startswith('pending') and pend[7].isdigit() else 'seed2'
 m['confirmed_by'] = f'tools/confirm_seed.sh /tmp/{rnd}-{prop} {demo} : build ok, demo fails with the change, passes without, existing tests of the touched packages pass with it'
 m['detected_by'] = det
 json.dump(m, open(f'{final}/meta.json', 'w'), indent=1)
